@@ -121,6 +121,13 @@ CHECKS = {
              "repaired), and Coq computes the premise and instantiates the theorem for every converter class. Real ASDF round trips "
              "over a zoo of frames/transforms/open modes compare fields, behaviour bit for bit, tree idempotence; deepcopy/pickle isolation.",
         ref="5 C09", technique="Coq proof with premises computed on tables regenerated from source + real ASDF round-trip correspondence"),
+    "C11": dict(
+        text="Theorems over the rationals about the -TAB bookkeeping: node_exact (the FITS reader's index at the pixel of node k is "
+             "exactly k+1 for every box and sampling: the tabulated value, no interpolation), table_spans_box, index_affine, "
+             "degenerate_cdelt, naxis_covers. Tied by AST pins and by comparing NAXISi/CRPIXi/node counts of every exported header with "
+             "the model evaluated in Coq; the exported (header, table) is loaded into wcslib and evaluated at EVERY node and random "
+             "in-box points against the WCS. PARTIAL between nodes (interpolation error tested).",
+        ref="5 C11", technique="Coq proof over rationals (hand model) + AST pins + header correspondence + wcslib differential"),
 }
 
 NOT_YET = "check not built yet in this session (work in progress; see DESIGN.md section 10 build order)"
